@@ -299,8 +299,14 @@ def run(ctx):
     ctx.extra['fs_operations_per_call'] = plan; ctx.extra['crash_points_planned'] = len(final)
     for part in pmap(crash_job, final, ctx.nproc): ctx.merge(part)
     ctx.extra['exhaustive'] = (ctx.extra.get('crash_runs', 0) == len(final))
+    # a rewrite of a multi-buffer object file interrupted between two write() calls leaves a PREFIX of the new file; when the buffer boundary falls on a record boundary the prefix is a
+    # well-formed object (the format has no end marker).  Instead of tuning attribute lengths until every record boundary sits on a buffer boundary, every such prefix is produced directly
+    # (protected token keys, one per token directory), a fresh process opens the token, and the outcome watched is the worst one: the protected value being read or wrapped.
+    sys.path.insert(0, os.path.dirname(os.path.abspath(__file__)))
+    import c02
+    for part in pmap(c02.cutoff_job, c02.cutoff_jobs(ctx, ctx.paths['asan']), ctx.nproc): ctx.merge(part)
     ctx.rule = ('for each writing call kind the FS operations (open/ftruncate/fflush/fclose/remove/mkdir/rmdir/...; sqlite writes for db) are numbered in a dry run; one evaluation = one victim killed at (operation k, before|after|after+torn{1,half,len-1}) '
                 'followed by a recovery probe in a fresh ASan process (Initialize, token info, both PINs old and new, find all, all attributes, use AES keys); distinct = crash points whose victim really died there; '
-                'judged against S0 (before) and S1 (completed call): untouched objects/PINs identical, written object old or new (absent only for creation/destruction)')
+                'judged against S0 (before) and S1 (completed call): untouched objects/PINs identical, written object old or new (absent only for creation/destruction); plus every record-boundary prefix of the object file of a protected token key (sensitive / unextractable / wrap-with-trusted, AES and RSA, public and private), opened by a fresh process that tries to read and to wrap the key')
     ctx.assumptions += ['process death only (no power loss: writes that reached the kernel survive)', 'generated keys are compared on their non-random attributes plus presence of the value']
 if __name__ == '__main__': main('C16', run, level='fault_enumeration', min_evaluations=200, min_distinct=150, max_inconclusive_frac=0.02)
